@@ -12,6 +12,7 @@ import Driver.Syntax
 import Driver.DryParam
 import Driver.Bytecode
 import Driver.FilterSem
+import Driver.Batcher
 /-! registry of the areas the driver serves -/
 namespace Driver
 def areas : List (String × Handler) := [
@@ -29,6 +30,7 @@ def areas : List (String × Handler) := [
   ("dryparam", DryParamD.handle),
   ("nsbytecode", BytecodeD.handle),
   ("filtersem", FilterSemD.handle),
-  ("boolparse", FilterSemD.handleRead)
+  ("boolparse", FilterSemD.handleRead),
+  ("batcher", BatcherD.handle)
 ]
 end Driver
